@@ -5,12 +5,15 @@ import (
 	"math/rand"
 	"runtime"
 	"sort"
+	"strconv"
 	"strings"
 	"sync"
 	"sync/atomic"
 	"time"
 
 	"github.com/anishathalye/porcupine"
+	"github.com/truora/minidyn/interpreter"
+	mtypes "github.com/truora/minidyn/types"
 
 	"verifharness/adapt"
 	"verifharness/model"
@@ -319,19 +322,81 @@ func (p *c11) conservation(x *res, ctx *runner.Ctx) {
 	n := mon.Pick(r, []int{2, 3, 8, 16, 64})
 	spec := adapt.TableSpec{Name: "tbl11", Hash: "h", Billing: "PAY_PER_REQUEST", Indexes: []adapt.IndexSpec{{Name: "gsi1", Hash: "g"}}}
 	key := val.Item{"h": val.Str("k")}
-	kind := []string{"add", "condput", "create", "pingpong", "batch-vs-scan", "batch-vs-failure-toggle", "multi-table-batch-vs-data"}[(ctx.Case/2)%7]
+	kind := []string{"add", "condput", "create", "pingpong", "batch-vs-scan", "batch-vs-failure-toggle", "multi-table-batch-vs-data", "native-add", "native-condput"}[(ctx.Case/2)%9]
 	wit := map[string]interface{}{"adapter": adapter, "goroutines": n, "monitor": kind}
 	x.fp(true, "cons|%s|%s|%d", kind, adapter, n)
 	x.r.Counters["conservation:"+kind]++
 	// every other round of the SDK v2 cases passes cancellable / deadline contexts to every call: a call that
 	// reports a cancellation is a FAILED call and must never take effect afterwards
-	cancelling := adapter == "v2" && (ctx.Case/14)%2 == 1 && (kind == "add" || kind == "condput")
+	cancelling := adapter == "v2" && (ctx.Case/18)%2 == 1 && (kind == "add" || kind == "condput")
 	if cancelling {
 		adapt.CancellingContexts.Store(true)
 		defer adapt.CancellingContexts.Store(false)
 		x.r.Counters["conservation_with_cancellable_contexts"]++
 	}
 	switch kind {
+	case "native-add", "native-condput":
+		// the same two conservation laws with the native interpreter active and the work done by REGISTERED Go callbacks
+		// that take their time (they yield and sleep a few microseconds, as a callback that logs or allocates does): a
+		// call is atomic whoever evaluates its condition or performs its update
+		cl, _, _ := freshClient(adapter, spec)
+		nc := nativeOf(cl)
+		native := interpreter.NewNativeInterpreter()
+		dawdle := func() {
+			runtime.Gosched()
+			time.Sleep(20 * time.Microsecond)
+			runtime.Gosched()
+		}
+		native.AddUpdater(spec.Name, "INCREMENT c", func(item map[string]*mtypes.Item, _ map[string]*mtypes.Item) {
+			cur := 0
+			if item["c"] != nil && item["c"].N != nil {
+				cur, _ = strconv.Atoi(*item["c"].N)
+			}
+			dawdle()
+			s := strconv.Itoa(cur + 1)
+			item["c"] = &mtypes.Item{N: &s}
+		})
+		native.AddMatcher(spec.Name, interpreter.ExpressionTypeConditional, "NOT THERE YET", func(item map[string]*mtypes.Item, _ map[string]*mtypes.Item) bool {
+			absent := item["h"] == nil
+			dawdle()
+			return absent
+		})
+		nc.setInterp(native)
+		nc.activate()
+		var okc, failc int64
+		var winner int64 = -1
+		if !parallel(n, func(i int) {
+			if kind == "native-add" {
+				for k := 0; k < 5; k++ {
+					if cl.Do(adapt.Op{Kind: adapt.OpUpdate, Table: spec.Name, Key: key, Update: "INCREMENT c"}).Class == adapt.ClsOK {
+						atomic.AddInt64(&okc, 1)
+					}
+				}
+				return
+			}
+			switch cl.Do(adapt.Op{Kind: adapt.OpPut, Table: spec.Name, Item: val.Item{"h": val.Str("k"), "payload": val.Num(fmt.Sprint(i)), "g": val.Str("x")}, Cond: "NOT THERE YET"}).Class {
+			case adapt.ClsOK:
+				atomic.AddInt64(&okc, 1)
+				atomic.StoreInt64(&winner, int64(i))
+			case adapt.ClsCondFailed:
+				atomic.AddInt64(&failc, 1)
+			}
+		}) {
+			x.notFinished(kind, fmt.Sprintf("[%s] %d concurrent calls served by native callbacks did not return", adapter, n), wit)
+			return
+		}
+		g := cl.Do(adapt.Op{Kind: adapt.OpGet, Table: spec.Name, Key: key})
+		if kind == "native-add" {
+			x.r.Evals += n * 5
+			if okc != int64(n*5) || !val.Equal(g.Item["c"], val.Num(fmt.Sprint(n*5))) {
+				x.viol("lost-update", kind, fmt.Sprintf("[%s] %d goroutines x 5 updates performed by a registered updater (c = c + 1), %d succeeded: c = %s, want %d", adapter, n, okc, g.Item["c"].Canon(), n*5), wit)
+			}
+		} else {
+			x.r.Evals += n
+			if okc != 1 || failc != int64(n-1) || !val.Equal(g.Item["payload"], val.Num(fmt.Sprint(winner))) {
+				x.viol("not-exactly-one-winner", kind, fmt.Sprintf("[%s] %d racing puts guarded by a registered matcher (item absent): %d succeeded, %d ConditionalCheckFailed, stored payload %s, last winner %d", adapter, n, okc, failc, g.Item["payload"].Canon(), winner), wit)
+			}
+		}
 	case "add":
 		cl, _, _ := freshClient(adapter, spec)
 		var okc int64
